@@ -470,6 +470,20 @@ func (m *Machine) callVx(fn *ssa.Function, a []Value) Value {
 			out = append(out, strings.TrimPrefix(p, m.Env.Cwd+"/"))
 		}
 		return out
+	case "vxFSRemoveTempDirsOnly":
+		for p := range m.Env.Nodes {
+			rel := strings.TrimPrefix(p, m.Env.Cwd+"/")
+			if rel == p {
+				continue
+			}
+			for _, seg := range strings.Split(rel, "/") {
+				if strings.HasPrefix(seg, "_scipipe_tmp") {
+					delete(m.Env.Nodes, p)
+					break
+				}
+			}
+		}
+		return nil
 	case "vxFSRemoveTemp":
 		// clean-up step of C03: remove every _scipipe_tmp* subtree and *.fifo below cwd
 		for p := range m.Env.Nodes {
